@@ -134,7 +134,22 @@ def coverage(run, fx):
         run.selftest("field-coverage/" + fn, rd == {"a", "b", "c"} and D.contiguous(regs, 17), exp)
 
 
-ALL = {"guards": guards, "follow": follow, "store": store, "downgrade": downgrade, "ambient": ambient, "panics": panic_sites, "locks": locks,
+def index_domain(run, fx):
+    from . import C15
+    ws = {b.defpath.rsplit("::", 1)[-1]: (b, rem, div) for (b, rem, div) in C15.walkers(fx, F + "walk::")}
+    for fn, exp in (("walk_residual_ok", False), ("walk_width_ok", False), ("walk_width_bad_off_by_one", True), ("walk_width_bad_too_strict", True)):
+        if fn not in ws:
+            run.selftest("index-domain/" + fn + "/walker-found", False, True)
+            continue
+        b, rem, div = ws[fn]
+        try:
+            wrong = C15.index_domain_wrong(b, fx, rem[1], div[0], 2, 3)
+            run.selftest("index-domain/" + fn, bool(wrong), exp)
+        except C15.Unknown:
+            run.selftest("index-domain/" + fn + "/evaluable", False, True)
+
+
+ALL = {"guards": guards, "index_domain": index_domain, "follow": follow, "store": store, "downgrade": downgrade, "ambient": ambient, "panics": panic_sites, "locks": locks,
        "tables": tables, "intervals": intervals, "provenance": provenance, "coverage": coverage}
 
 # which detector families each property's rules rely on
@@ -143,7 +158,7 @@ USES = {
     "C05": ["guards", "follow", "provenance"], "C06": ["guards", "follow"], "C07": ["guards", "follow"], "C08": ["guards", "follow", "downgrade", "provenance"],
     "C09": ["guards", "tables", "panics", "provenance"], "C10": ["guards", "panics", "locks", "intervals"], "C11": ["guards", "intervals"],
     "C12": ["guards", "tables", "coverage", "provenance"], "C13": ["guards", "follow", "provenance"], "C14": ["guards", "follow", "provenance"],
-    "C15": ["guards", "tables"], "C16": ["guards", "ambient", "provenance"], "C17": ["guards", "ambient", "panics", "follow"],
+    "C15": ["guards", "tables", "index_domain"], "C16": ["guards", "ambient", "provenance"], "C17": ["guards", "ambient", "panics", "follow"],
     "C18": ["guards", "panics", "provenance", "coverage"], "C19": ["guards"], "C20": ["guards", "ambient"],
 }
 
